@@ -5,12 +5,12 @@ CFG = {'lean_modules': ['ObiVerif.Props.C10'],
  'thorough_seeds': 8,
  'rule': 'cases = (operation, pattern, budget 0..4, indel flag, complemented?, sequence, circular?, begin, length): hand-picked corpus (every defect found, '
          'hits touching both ends, windows, empty/short sequences, pattern lengths 1, 63, 64 and 65); random patterns of 1..63 positions with IUPAC codes, '
-         '[...] classes, ! and # (and arbitrary strings over the pattern alphabet for the compiler / complementer); random sequences with 0..3 planted '
-         'sites carrying 0..e+1 substitutions (or indels), the first site at offset 0 and the last one at the end in a fixed fraction of the cases, also with '
-         'ambiguous symbols or non-letter bytes; windows (begin,length) incl. negative / beyond the end; circular sequences of >= 64 symbols; operations '
-         'pat, rcpat, find (FindAllIndex), is (IsMatching), filter (FilterBestMatch), all (AllMatches), best (BestMatch), locate (LocatePattern); thorough '
-         'tier adds the enumeration of 42 patterns of <= 2 tokens x all 121 sequences over {a,c,t} of length <= 4 x budgets 0..2 x {mismatch, indel}. Every '
-         'search runs on a fresh ApatSequence and on one recycled from the previous case (results must agree). non-trivial = distinct case whose pattern compiles',
+         '[...] classes, ! and # (and arbitrary strings over the pattern alphabet for the compiler / complementer); random sequences with 0..3 planted sites '
+         'carrying 0..e+1 substitutions (or indels), the first site at offset 0 and the last one at the end in a fixed fraction of the cases, also with '
+         'ambiguous symbols or non-letter bytes; windows (begin,length) incl. negative / beyond the end; circular sequences of >= 64 symbols; operations pat, '
+         'rcpat, find (FindAllIndex), is (IsMatching), filter (FilterBestMatch), all (AllMatches), best (BestMatch), locate (LocatePattern); thorough tier '
+         'adds the enumeration of 42 patterns of <= 2 tokens x all 121 sequences over {a,c,t} of length <= 4 x budgets 0..2 x {mismatch, indel}. Every search '
+         'runs on a fresh ApatSequence and on one recycled from the previous case (results must agree). non-trivial = distinct case whose pattern compiles',
  'technique': 'Lean 4 theorems on a transcription of the C bit-parallel matcher (64-bit state words as BitVec 64) and of its Go layer + differential '
               'correspondence with the real cgo calls + independent oracle (brute-force Hamming distance at every position, brute-force / Sellers edit '
               'distance over substrings, mirrored token list for the complement, reverse-complement symmetry as a relation between two real runs)',
@@ -20,28 +20,33 @@ CFG = {'lean_modules': ['ObiVerif.Props.C10'],
                'that distance (manberSub_exact, manberNoErr_exact, manberAll_exact, findAllIndex_exact, hits_sorted; via the automaton invariant Rep: bit m-j '
                'of the level-e word <=> p[0..j) matches the last j symbols with <= e substitutions, none obligatory); strand symmetry of mismatch-only '
                'matching for the mirrored code list (match_revcomp) with the letter-complement table decided over the generated tables '
-               '(complement_table_mirror); the compiled IUPAC table is the IUPAC table (dnaCode_is_iupac, dnaCode_acgt_only); the repaired LocatePattern '
-               'does not panic on a non-empty pattern (locate_total). NOT proved, tied by correspondence and oracle only: indel_iff (the harness checks, '
-               'per end position, that the indel automaton reports the best substring edit distance), locate_spec (span inside the fragment, errors = edit '
-               'distance = best over substrings: checked by the oracle on LocatePattern, AllMatches, BestMatch), and that the string-level '
-               'complementPattern yields the mirrored code list (oracle rcpat.code on every complemented pattern).',
- 'level_note': 'Trusted: Lean kernel; the transcription Model/Apat.lean (validated differentially: compiled code words, omask, S matrix and every hit list '
-               'are compared byte for byte); the C compiler; extractor (literals only). The model follows the code as repaired by the five C10 patches '
-               '(BestMatch end, LocatePattern start, LocatePattern short sequence, complement of !X# first, complement of negated classes). Pattern length '
-               '64 (and more) is accepted by MakeApatPattern although `0x1L << patlen` is undefined behaviour in C: reported by the oracle '
-               '(find.sub.patlen64), not modelled (results of such cases are printed as `unmodelled`). Memory safety of the C stacks and of the circular '
-               'extension (EncodeSequence reads in[0..64) even when the sequence is shorter) is not covered: circular sequences shorter than 64 are not exercised.',
+               '(complement_table_mirror); the compiled IUPAC table is the IUPAC table (dnaCode_is_iupac, dnaCode_acgt_only); the repaired LocatePattern does '
+               'not panic on a non-empty pattern (locate_total). Deepening round, proved: locate_spec (for a non-empty pattern LocatePattern returns a span '
+               'inside the fragment whose reported error count is the edit distance of the pattern to that span and is minimal over ALL substrings), indel_iff '
+               '/ indel_hit_iff / manberAll_indel / findAllIndex_indel (the Wu-Manber automaton with indels reports at each end position the least edit '
+               'distance of the pattern to a substring ending there when within the budget; hypothesis: no obligatory # position - with # the C code is not '
+               'uniform, example in Props), compile_grammar, complement_mirror and match_revcomp_string (the string-level complementPattern yields the '
+               'mirrored code list for every pattern of the documented grammar, so strand symmetry holds without the MirrorList hypothesis; '
+               'complement_outside_grammar: counterexample for ## which CheckPattern accepts). Still by correspondence/oracle only: # combined with indels, '
+               'circular re-alignment, the composition AllMatches/BestMatch = indel_iff o locate_spec.',
+ 'level_note': 'Trusted: Lean kernel; the transcription Model/Apat.lean (validated differentially: compiled code words, omask, S matrix and every hit list are '
+               'compared byte for byte); the C compiler; extractor (literals only). The model follows the code as repaired by the five C10 patches (BestMatch '
+               'end, LocatePattern start, LocatePattern short sequence, complement of !X# first, complement of negated classes). Pattern length 64 (and more) '
+               'is accepted by MakeApatPattern although `0x1L << patlen` is undefined behaviour in C: reported by the oracle (find.sub.patlen64), not modelled '
+               '(results of such cases are printed as `unmodelled`). Memory safety of the C stacks and of the circular extension (EncodeSequence reads '
+               'in[0..64) even when the sequence is shorter) is not covered: circular sequences shorter than 64 are not exercised.',
  'trusted_base': LEAN_TB + ['extract/ (literal extraction of sDnaCode, LX_BIO_DNA_ALPHA, LX_BIO_CDNA_ALPHA, PATMASK, OBLIBIT, MAX_PAT_LEN, ALPHA_LEN, _iupac, _revcmpDNA)',
-                            'C compiler translation of apat_parse.c / apat_search.c / obiapat.c / libstki.c (two\'s-complement conversion of hit positions to int32)',
-                            'brute-force Hamming / edit-distance references and the token parser of the documented pattern grammar in the harness',
-                            'pkg/obiapat/verif_hooks.go (read-only accessors to the compiled pattern)'],
+ "C compiler translation of apat_parse.c / apat_search.c / obiapat.c / libstki.c (two's-complement conversion of hit positions to int32)",
+ 'brute-force Hamming / edit-distance references and the token parser of the documented pattern grammar in the harness',
+ 'pkg/obiapat/verif_hooks.go (read-only accessors to the compiled pattern)'],
  'modelled': 'pkg/obiapat apat_parse.c (CheckPattern, splitPattern, valPattern, EncodePattern), apat_search.c (CreateS, ManberNoErr, ManberSub, ManberIndel, '
              'ManberAll), obiapat.c (UpperSequence, EncodeSequence, circular extension, buildPattern, complementPattern/reverseSequence), pattern.go '
              '(MakeApatPattern, ReverseComplement, FindAllIndex, IsMatching, FilterBestMatch, AllMatches, BestMatch), obialign/locatepattern.go '
              '(LocatePattern, _samenuc)',
- 'assumptions': ['pattern length 1..63 (64 is undefined behaviour in C, reported separately)', 'error budget <= 63 (the r[] array of ManberSub/Indel has 2*MAX_PAT_ERR+2 words)',
+ 'assumptions': ['pattern length 1..63 (64 is undefined behaviour in C, reported separately)',
+                 'error budget <= 63 (the r[] array of ManberSub/Indel has 2*MAX_PAT_ERR+2 words)',
                  'the search window is the one the API applies: [max(begin,0), min(begin+length+MAX_PAT_LEN, len)) (length < 0 = whole sequence)',
-                 'sequence symbols are compared as the matcher specifies: a sequence letter matches a position iff it belongs to the position\'s class (classes '
+                 "sequence symbols are compared as the matcher specifies: a sequence letter matches a position iff it belongs to the position's class (classes "
                  'contain only a,c,g,t unless negated); strand symmetry assumes letters only and no symbol u (obiseq complements u to a)',
                  'obligatory positions combined with indels, and circular sequences in AllMatches/BestMatch, are tied by correspondence only',
                  'patterns contain no NUL byte; begin/length fit in int32']}
